@@ -373,6 +373,11 @@ class Wrapper(GroupNode):
     merging = False
 
     def query(self, parser):
+        if not self.nodes:
+            # The wrapped node was itself an operator with nothing to apply
+            # to (e.g. "NOT NOT"), which removed itself
+            return None
+
         q = self.nodes[0].query(parser)
         if q:
             return attach(self.qclass(q), self)
